@@ -305,6 +305,8 @@ pub fn families(kind: Kind, tier: Tier) -> Vec<Box<dyn Family>> {
             v.push(Box::new(Strided { base: Box::new(comp_over_level2()), stride: 11 }));
             v.push(Box::new(Strided { base: Box::new(nested_loops(false)), stride: 5 }));
             v.push(Box::new(many_ranges()));
+            v.push(Box::new(overlap_frames()));
+            v.push(Box::new(spellings()));
         }
         (Kind::C03, Tier::Thorough) => {
             v.push(Box::new(core_quick()));
@@ -317,6 +319,8 @@ pub fn families(kind: Kind, tier: Tier) -> Vec<Box<dyn Family>> {
             v.push(Box::new(comp_over_level2()));
             v.push(Box::new(nested_loops(true)));
             v.push(Box::new(Strided { base: Box::new(core_wide()), stride: 7 }));
+            v.push(Box::new(overlap_frames()));
+            v.push(Box::new(spellings()));
         }
         (Kind::C14, Tier::Quick) => {
             v.push(Box::new(Truncated { base: Box::new(core_quick()), n: 100_000 }));
